@@ -221,7 +221,11 @@ impl<'a> AnyCache<'a> {
     }
 
     #[cfg(feature = "hot-reloading")]
-    pub(crate) fn reload_untyped(self, id: SharedString, typ: Type) -> Option<Dependencies> {
+    pub(crate) fn reload_untyped(
+        self,
+        id: SharedString,
+        typ: Type,
+    ) -> Option<(Dependencies, bool)> {
         let handle = self.get_cached_untyped(&id, typ)?;
         if !handle.is_dynamic() {
             // Values added with `get_or_insert` are never reloaded
@@ -250,11 +254,11 @@ impl<'a> AnyCache<'a> {
             Ok(e) => {
                 handle.write(e);
                 log::info!("Reloading \"{}\"", handle.id());
-                Some(deps)
+                Some((deps, true))
             }
             Err(err) => {
                 log::warn!("Error reloading \"{}\": {}", err.id(), err.reason());
-                None
+                Some((deps, false))
             }
         }
     }
